@@ -622,6 +622,18 @@ static void advance_locked(void) {
   pthread_cond_broadcast(&bc);
 }
 
+/* sched mode: nobody is inside a section of Mutex m (shadow state), so the pthread mutex must be free: probe it with the
+   raw primitive before a Cello operation that would otherwise wait for ever */
+static int mutex_really_free(int m, int line) {
+  pthread_mutex_t* pm = mutex_prim(mutex_obj[m]);
+  if (__real_pthread_mutex_trylock(pm) != 0) {
+    XX("sig=c13-overlap line=%d what=Mutex %d is still locked although every section of it has been left", line, m);
+    return 0;
+  }
+  __real_pthread_mutex_unlock(pm);
+  return 1;
+}
+
 /* sched mode: execute one synchronisation event (the baton is held: the shadow state is consistent) */
 static void exec_sync_sched(Evt* e) {
   int me = my_tid;
@@ -645,6 +657,7 @@ static void exec_sync_sched(Evt* e) {
     case OP_LOCK: case OP_ENTER: {
       int m = (int)e->a % MAXM;
       if (shadow_holder[m]) { set_out(e, "blocked"); break; }
+      if (!mutex_really_free(m, e->line)) { set_out(e, "blocked"); break; }
       if (e->op == OP_LOCK) c_lock(mutex_obj[m], e->line); else c_enter(mutex_obj[m], e->line);
       shadow_holder[m] = me + 1; sec_enter(m, e->line); set_out(e, "acquired"); break; }
     case OP_TRYLOCK: {
@@ -661,6 +674,7 @@ static void exec_sync_sched(Evt* e) {
     case OP_WINC: {
       int m = (int)e->a % MAXM, c = (int)e->b % MAXC;
       if (shadow_holder[m]) { set_out(e, "blocked"); break; }
+      if (!mutex_really_free(m, e->line)) { set_out(e, "blocked"); break; }
       tl_cello_sync = 1;
       with (x in mutex_obj[m]) { sec_enter(m, e->line); long v = counter[c]; ldreg[me] = v; counter[c] = v + 1; sec_leave(m, e->line); }
       tl_cello_sync = 0;
